@@ -14,6 +14,9 @@ Pure algebraic laws over observed calls of the real code (the only "model" is an
     as.tf-reuse / repeat.same-objects   a transfer-function array, a field object, a Q container used again gives what it gave first,
                             and the later use still satisfies the laws above (function and Wavefront form)
     history.ops             band-complete pair judged after shifted traffic at the same sizes / a float32 warm-up / clears
+    form.equivalence        every accepted argument form reproduces the canonical call (class E; also the pair through the fixed-sampling
+                            wrappers, real-dtype / integer / boolean fields everywhere)
+    foreign.traffic         laws judged after the other consumers of the shared helpers / executors ran (class F)
 
 Chirp-Z failures are attributed, for the ledger key only, to the C01 chirp-Z defects by the same single-cause models
 that C01 uses (vp/props/c01.py::diagnose_czt): the C01 patches clear them.
@@ -38,6 +41,16 @@ RULE = ('cases are (shape, Q, dtype/precision) for the padded FFT pair, (shape, 
         'float64 ndarray, numpy scalars) for both legs of the band-complete pair, twice.  Histories put shifted transforms with another '
         'Q at the same array sizes (engine calls and the fixed-sampling wrappers), a float32 warm-up of the same pair and cache clears '
         'before the band-complete pair that is judged; free-space laws are also judged after a float32 warm-up of the same routines.  '
+        'Fields of the band-complete grid, of free space and of the foreign-history cases are complex, real-dtype, integer and boolean '
+        'arrays (an integer / boolean image is a real field).  The band-complete pair is also made through focus_fixed_sampling / '
+        'unfocus_fixed_sampling (function and Wavefront form, both methods, both orders, non-square fields onto one square period, '
+        'sample counts as int / tuple / numpy integer / list, shift and method omitted or spelled out).  Form cases (class E, '
+        'vp/propforms.py): focus / unfocus / angular_spectrum (with and without tf=) / the transfer function and the band-complete '
+        'pairs as composed routines in a canonical form and then in every other accepted form of the same numbers (field dtype kinds, '
+        'containers, numpy / integer / 0-d scalars, positional, omitted defaults after a call with other explicit values, Wavefront '
+        'methods incl. free_space(tf=)).  Foreign-history cases (class F): the other consumers of the shared helpers and executors '
+        '(incl. the adjoint routines at exactly the cache keys of the pair, the transfer function at the same arguments with the '
+        'returned array edited in place) run first, then the laws are judged with nothing cleared.  '
         'Non-trivial: the field has >= 2 non-zero samples; distinct = distinct descriptor')
 ASSUMPTIONS = [
     'origin-aligned zero padding puts input sample n//2 on output sample N//2 (own placement, not prysm.pad2d)',
@@ -52,9 +65,17 @@ ASSUMPTIONS = [
     'returned (a routine may hand back memory it shares with an argument); the routines are deterministic, so a later call with the '
     'same argument objects must reproduce the first to 10 eps',
     'a mixed-precision case is judged at the float32 tolerances',
+    'accepted argument forms are fixed from the reference tree (/repo @ faa8443, vp/propforms.py); a form must reproduce the canonical '
+    'result to 1e-12 (float32-carrying forms / single precision: 1e-3) of max(max|canonical|, bound on the output magnitude); the '
+    'canonical result itself is judged by the laws',
+    'exact band through the wrappers: P x P samples with P d2 = lambda f / d1, P >= max(field shape), so Q = P / n per axis and the '
+    'return trip has Q = 1; same tolerances as the executor-level pair',
+    'foreign traffic is not judged; returned arrays belong to the caller and are edited in place; a foreign routine that leaves '
+    'config.precision changed is reported under its own key and repaired before the laws are judged',
 ]
 REQUIRED = ['fft.energy', 'fft.roundtrip', 'mdft.band-complete', 'czt.band-complete', 'as.energy', 'tf.unit-modulus',
-            'as.identity', 'as.undo', 'as.compose', 'as.tf-argument', 'tf.group-law', 'as.tf-reuse', 'repeat.same-objects', 'history.ops']
+            'as.identity', 'as.undo', 'as.compose', 'as.tf-argument', 'tf.group-law', 'as.tf-reuse', 'repeat.same-objects', 'history.ops',
+            'form.equivalence', 'foreign.traffic']
 
 CTX = None
 CUR = {'desc': None}
@@ -180,8 +201,10 @@ def as_post(token, args, kwargs, result):
     a = dict(token)                                # every argument as it was before the call
     _note_mutation('angular_spectrum', args, kwargs, ['field', 'wvl', 'dx', 'z', 'Q', 'tf'], token)
     field = a.get('field')
-    if not isinstance(field, np.ndarray) or field.ndim != 2 or field.dtype.kind not in 'fc':
+    if not isinstance(field, np.ndarray) or field.ndim != 2 or field.dtype.kind not in 'fciub':
         return
+    if field.dtype.kind in 'iub':
+        field = field.astype(np.float64)          # an integer / boolean image is a real field
     tf = a.get('tf', None)
     Q = a.get('Q', 2)
     e_in = energy(field)
@@ -253,6 +276,22 @@ def nontrivial(a):
     return int(np.count_nonzero(a)) >= 2
 
 
+# dtype kinds of a field (class E): the same law for a complex field, a real-dtype field, an integer image and a boolean mask
+DATA_KINDS = ('complex', 'complex', 'real', 'complex', 'int', 'complex', 'bool', 'real')
+
+
+def field_of_kind(kind, shape, seed, bits=64):
+    if kind == 'complex':
+        return make_input(shape, True, seed, bits=bits)
+    if kind == 'real':
+        return make_input(shape, False, seed, bits=bits)
+    r = np.random.default_rng(seed)
+    if kind == 'int':
+        dt = [np.int64, np.int32, np.int16, np.uint8][seed % 4]
+        return r.integers(0 if dt is np.uint8 else -3, 4, shape).astype(dt)
+    return r.random(shape) < 0.6
+
+
 def shapes_upto(n):
     s = [(i, j) for i in range(1, n + 1) for j in range(1, n + 1)]
     s.sort(key=lambda p: (p[0] * p[1], p))
@@ -319,6 +358,13 @@ def band_complete(ctx, engine, a, n, out, order, desc, single, Qarg=None, outarg
         Qarg = Q[0] if (Q[0] == Q[1] and desc.get('k', 0) % 2) else Q
     F = first(a, Qarg, out if outarg is None else outarg)
     back = second(F, 1, n)
+    judge_band(engine, a, n, out, order, desc, single, F, back, a_ref)
+
+
+def judge_band(engine, a, n, out, order, desc, single, F, back, a_ref=None, via=''):
+    """Isometry + left-inverse laws of one band-complete trip a -> F (out samples, Q = out/n) -> back (n samples).  `via`: suffix
+    of the key for trips made through other routines than the executors (the fixed-sampling wrappers)."""
+    Q = (out[0] / n[0], out[1] / n[1])
     if a_ref is not None:
         a = a_ref                     # judge against the values the caller put in, not against what the array holds now
     mon = f'{engine}.band-complete'
@@ -374,7 +420,7 @@ def band_complete(ctx, engine, a, n, out, order, desc, single, Qarg=None, outarg
                               'czt2 -> iczt2 on the band-complete grid (integer out >= n, Q = out/n) does not conserve energy / return the '
                               'field; consequence of the chirp-Z defect ' + C01_CAUSE_KEY[c], desc, explained_by=sorted(causes), **detail)
             return
-    cls = f'{shape_kind(n)}->{shape_kind(out)}'
+    cls = f'{shape_kind(n)}->{shape_kind(out)}' + via
     if bad_energy:
         CTX.violation(f'C02/{engine}/band-complete/energy/{cls}',
                       f'{engine} transform onto the full band (out = n*Q) is not an isometry', desc, **detail)
@@ -413,9 +459,10 @@ def wl_band_complete(ctx, rng):
                     fttools.czt.clear()
                 bits = 32 if (k // ctx.nshards) % 7 == 6 else 64
                 seed = ctx.subseed(rng)
-                a = make_input(n, True, seed, bits=bits)
-                desc = {'wl': 'band-complete', 'engine': engine, 'order': order, 'n': n, 'out': out, 'bits': bits, 'seed': seed, 'k': k,
-                        'class': f'band:{engine}:{order}:{shape_kind(n)}:{axes_class(n, out)}:f{bits}'}
+                dk = DATA_KINDS[(k // ctx.nshards) % len(DATA_KINDS)]
+                a = field_of_kind(dk, n, seed, bits)
+                desc = {'wl': 'band-complete', 'engine': engine, 'order': order, 'n': n, 'out': out, 'bits': bits, 'seed': seed, 'k': k, 'field_dtype': str(a.dtype),
+                        'class': f'band:{engine}:{order}:{shape_kind(n)}:{axes_class(n, out)}:f{bits}' + (f':{dk}' if dk != 'complex' else '')}
                 ctx.case(desc, nontrivial=nontrivial(a))
                 CUR['desc'] = desc
                 try:
@@ -461,11 +508,13 @@ def wl_free_space(ctx, rng):
             seed = ctx.subseed(rng)
             dbits = bits if (k // ctx.nshards) % 6 else (96 - bits)          # mixed: data of the other precision
             warm = bits == 64 and dbits == 64 and (k // ctx.nshards) % 5 == 2      # float32 warm-up first, then judge float64 at full tolerance
-            a = make_input((m, n), True, seed, bits=dbits)
+            dk = DATA_KINDS[(k // ctx.nshards) % len(DATA_KINDS)]
+            a = field_of_kind(dk, (m, n), seed, dbits)
             via = 'Wavefront' if (k // ctx.nshards) % 2 else 'function'
             desc = {'wl': 'free-space', 'in': (m, n), 'wvl': wvl, 'dx': dx, 'z1': z1, 'z2': z2, 'Qpad': Qpad, 'bits': bits, 'data_bits': dbits,
-                    'via': via, 'f32_warmup': warm, 'seed': seed,
-                    'class': f'as:{shape_kind((m, n))}:{parity(m)}{parity(n)}:p{bits}/d{dbits}:{via}{":after-f32-warmup" if warm else ""}'}
+                    'via': via, 'f32_warmup': warm, 'seed': seed, 'field_dtype': str(a.dtype),
+                    'class': f'as:{shape_kind((m, n))}:{parity(m)}{parity(n)}:p{bits}/d{dbits}:{via}{":after-f32-warmup" if warm else ""}'
+                             + (f':{dk}' if dk != 'complex' else '')}
             ctx.case(desc, nontrivial=nontrivial(a))
             CUR['desc'] = desc
             single = bits == 32 or dbits == 32
@@ -765,6 +814,225 @@ def wl_repeat_fields(ctx, rng):
     fttools.czt.clear()
 
 
+# ---- class E: the band-complete pair through the fixed-sampling wrappers; argument forms ----------------------
+def wl_band_wrappers(ctx, rng):
+    """The band-complete pair made through focus_fixed_sampling / unfocus_fixed_sampling (function and Wavefront form, both
+    methods, both orders): a field of shape n at spacing d1 goes onto exactly one period P x P of the other plane (spacing
+    d2 = lambda f / (P d1), P >= max n, so Q = P / n per axis) and back.  Fields are complex, real-dtype, integer and boolean
+    arrays; sample counts as int / tuple / numpy integers; shift and method omitted or spelled out."""
+    from prysm import propagation as P, fttools
+    from ..util import precision
+    n_cases = ctx.share(ctx.pick(800, 320000))
+    for i in range(n_cases):
+        if i % 512 == 511:
+            fttools.mdft.clear()
+            fttools.czt.clear()
+        hi = ctx.pick(10, 25)
+        m, n = (int(v) for v in rng.integers(1, hi, 2))
+        if rng.random() < 0.4:
+            n = m
+        Pb = max(m, n) + int(rng.integers(0, ctx.pick(8, 20)))
+        if Pb == 1:
+            Pb = 2
+        method = ('mdft', 'czt')[int(rng.integers(2))]
+        order = ('focus-first', 'unfocus-first')[int(rng.integers(2))]
+        via = ('function', 'Wavefront')[int(rng.integers(2))]
+        bits = 32 if rng.random() < 0.15 else 64
+        dk = ('complex', 'real', 'int', 'bool')[int(rng.integers(4))]
+        wvl = [0.5, 0.6328, 1.55][int(rng.integers(3))]
+        efl = [50., 100., 250.][int(rng.integers(3))]
+        d1 = [0.1, 0.05, 1.0, 7.5][int(rng.integers(4))]
+        d2 = wvl * efl / (Pb * d1)
+        seed = ctx.subseed(rng)
+        a = field_of_kind(dk, (m, n), seed, bits)
+        spell = int(rng.integers(4))      # how the optional arguments and the square sample count are spelled
+        desc = {'wl': 'band-wrappers', 'engine': method, 'order': order, 'n': (m, n), 'out': (Pb, Pb), 'via': via, 'bits': bits, 'field_dtype': str(a.dtype),
+                'wvl': wvl, 'efl': efl, 'd1': d1, 'd2': d2, 'spelling': spell, 'seed': seed, 'k': 0,
+                'class': f'band-wrappers:{method}:{order}:{via}:{shape_kind((m, n))}:{parity(m)}{parity(n)}->{parity(Pb)}:{dk}:p{bits}:spell{spell}'}
+        ctx.case(desc, nontrivial=int(np.count_nonzero(a)) >= 2)
+        if not np.any(a):
+            continue
+        CUR['desc'] = desc
+        samples = [Pb, (Pb, Pb), np.int64(Pb), [Pb, Pb]][spell]
+        kw1 = [{'method': method}, {'shift': (0, 0), 'method': method}, {'method': method, 'shift': (0.0, 0.0)}, {'method': method}][spell]
+        if method == 'mdft' and spell == 3:
+            kw1 = {}                                        # method omitted: the documented default is 'mdft'
+        kw2 = dict(kw1) if spell % 2 else ({'method': method} if method != 'mdft' else {})
+        try:
+            with precision(bits), ctx.guard(f'C02/{method}/band-complete', desc):
+                f1, f2 = ('focus_fixed_sampling', 'unfocus_fixed_sampling') if order == 'focus-first' else ('unfocus_fixed_sampling', 'focus_fixed_sampling')
+                if via == 'function':
+                    F = np.array(getattr(P, f1)(a, d1, efl, wvl, d2, samples, **kw1), copy=True)
+                    back = getattr(P, f2)(F, d2, efl, wvl, d1, (m, n), **kw2)
+                else:
+                    w = P.Wavefront(a, wvl, d1, space='pupil' if order == 'focus-first' else 'psf')
+                    smp = samples if not isinstance(samples, list) else tuple(samples)
+                    Fw = getattr(w, f1)(efl, d2, smp, **kw1)
+                    F = np.array(Fw.data, copy=True)
+                    back = getattr(Fw, f2)(efl, d1, (m, n), **kw2).data
+                judge_band(method, a, (m, n), (Pb, Pb), 'fwd-inv' if order == 'focus-first' else 'inv-fwd', desc, bits == 32, F, back,
+                           via='/fixed-sampling-pair')
+        finally:
+            CUR['desc'] = None
+    fttools.mdft.clear()
+    fttools.czt.clear()
+
+
+FORM_ROUTINES = ('focus', 'unfocus', 'angular_spectrum', 'angular_spectrum(tf)', 'angular_spectrum_transfer_function',
+                 'dft2->idft2', 'idft2->dft2', 'czt2->iczt2', 'iczt2->czt2', 'focus_fixed_sampling->unfocus_fixed_sampling',
+                 'unfocus_fixed_sampling->focus_fixed_sampling')
+
+
+def wl_forms(ctx, rng):
+    """Class E (vp/propforms.py): focus / unfocus / angular_spectrum (with and without tf=) / the transfer function, and the
+    band-complete pairs as composed routines (executor level and through the fixed-sampling wrappers), each in its canonical
+    form and then in every other accepted form of the same numbers.  The canonical result is judged by the property's laws
+    (round trip; the contracts judge energy on every call); every form must reproduce it."""
+    from .. import propforms as PF
+    from prysm import propagation as P, fttools
+    from ..util import precision
+    reps = ctx.pick(4, 900)
+    k = -1
+    for rep in range(reps):
+        for routine in FORM_ROUTINES:
+            for kind in PF.FIELD_KINDS:
+                k += 1
+                if not ctx.mine(k):
+                    continue
+                if routine == 'angular_spectrum_transfer_function' and kind != 'complex':
+                    continue
+                bits = 32 if (k // ctx.nshards) % 5 == 4 else 64
+                single = bits == 32
+                base = routine.split('->')[0].split('(')[0]
+                vals = PF.draw_values(base, rng, kind)
+                desc = {'wl': 'forms', 'routine': routine, 'field_kind': kind, 'precision': bits, 'k': k,
+                        'class': f'forms:{routine}:{kind}:p{bits}'}
+                fn = None
+                farg = {'dft2': 'ary', 'idft2': 'ary', 'czt2': 'ary', 'iczt2': 'ary', 'angular_spectrum': 'field'}.get(base, 'wavefunction')
+                a = vals.get(farg)
+                if '->' in routine:
+                    shp = a.shape
+                    if base in PF.ENGINES:
+                        out = (shp[0] + int(rng.integers(0, 6)), shp[1] + int(rng.integers(0, 6)))
+                        vals.update(Q=(out[0] / shp[0], out[1] / shp[1]), samples_out=out, shift=(0.0, 0.0))
+                        ex = fttools.mdft if base in ('dft2', 'idft2') else fttools.czt
+                        second = routine.split('->')[1]
+
+                        def fn(ary, Q, samples_out, shift=(0, 0), ex=ex, first=base, second=second):
+                            return getattr(ex, second)(getattr(ex, first)(ary, Q, samples_out, shift), 1, ary.shape)
+                    else:
+                        Pb = max(shp) + int(rng.integers(0, 6))
+                        d1 = vals['input_dx']
+                        vals.update(output_dx=vals['wavelength'] * vals['prop_dist'] / (Pb * d1), output_samples=(Pb, Pb), shift=(0.0, 0.0))
+                        second = routine.split('->')[1]
+
+                        def fn(wavefunction, input_dx, prop_dist, wavelength, output_dx, output_samples, shift=(0, 0), method='mdft', first=base, second=second):
+                            F = getattr(P, first)(wavefunction, input_dx, prop_dist, wavelength, output_dx, output_samples, shift, method)
+                            return getattr(P, second)(F, output_dx, prop_dist, wavelength, input_dx, wavefunction.shape, method=method)
+                elif routine == 'angular_spectrum(tf)':
+                    with precision(bits):
+                        vals['tf'] = np.array(P.angular_spectrum_transfer_function(a.shape, vals['wvl'], vals['dx'], vals['z']), copy=True)
+                    vals['Q'] = 1
+                desc['values'] = {a_: v for a_, v in vals.items() if not isinstance(v, np.ndarray)}
+                ctx.case(desc, nontrivial=(a is None or nontrivial(a)))
+                CUR['desc'] = desc
+                try:
+                    with precision(bits):
+                        ref = PF.judge_forms(ctx, 'C02', base, vals, desc, single=single, field_kinds={farg: kind}, fn=fn, label=routine,
+                                             wavefront=(fn is None),
+                                             scale_floor=(float(np.sqrt(np.sum(np.abs(a) ** 2))) if fn is not None else None))
+                        if ref is not None and '->' in routine:
+                            eng = 'mdft' if ('dft2' in base or vals.get('method') == 'mdft') else 'czt'
+                            field_close(f'{eng}.band-complete', ref, a, f'C02/{eng}/band-complete/roundtrip/{shape_kind(a.shape)}->forms',
+                                        f'{routine} on the band-complete grid does not return the field (canonical argument form)', desc, single,
+                                        rtol64=1e-9, rtol32=3e-2)
+                        elif ref is not None and routine == 'angular_spectrum(tf)':
+                            direct = P.angular_spectrum(a.astype(complex), vals['wvl'], vals['dx'], vals['z'], Q=1)
+                            field_close('as.tf-argument', ref, direct, f'C02/free-space/tf-argument!=direct/{shape_kind(a.shape)}',
+                                        'angular_spectrum(tf=transfer_function(z)) differs from angular_spectrum(z)', desc, single, rtol64=1e-12, rtol32=1e-5)
+                finally:
+                    CUR['desc'] = None
+        if rep % 8 == 7:
+            fttools.mdft.clear()
+            fttools.czt.clear()
+    fttools.mdft.clear()
+    fttools.czt.clear()
+
+
+# ---- class F: cross-module histories ----------------------------------------------------------------------
+def wl_foreign(ctx, rng):
+    """Class F: the other public consumers of fftrange / forward_ft_unit / fftfreq / make_xy_grid / pad2d / crop_center, the
+    transfer-function routine and the shared executors run first at the case's axis lengths, spacings, wavelength and
+    distances (non-zero shifts, ndarray containers, precision 32, every returned array edited in place); then the laws of the
+    property are judged at those lengths with nothing cleared in between."""
+    from .. import propforms as PF
+    from prysm import propagation as P, fttools
+    for rep in range(ctx.share(ctx.pick(16, 9600))):
+        hi = ctx.pick(10, 24)
+        lengths = sorted(set(int(v) for v in rng.integers(2, hi + 1, 3)))
+        dx = [0.1, 0.05, 1.0][int(rng.integers(3))]
+        desc0 = {'wl': 'foreign', 'lengths': lengths, 'dx': dx, 'rep': rep, 'class': 'foreign-traffic-then-laws', 'k': 0}
+        ctx.case(desc0)
+        CUR['desc'] = dict(desc0, phase='foreign-traffic')
+        try:
+            PF.foreign_traffic(ctx, rng, lengths, dxs=(dx, 1.0), heavy=(rep % 3 == 0), prefix='C02', desc=CUR['desc'])
+            for j in range(ctx.pick(4, 6)):
+                m, n = (lengths[int(v)] for v in rng.integers(len(lengths), size=2))
+                M, N = (lengths[int(v)] for v in rng.integers(len(lengths), size=2))
+                out = (max(m, M), max(n, N))
+                seed = ctx.subseed(rng)
+                dk = DATA_KINDS[j % len(DATA_KINDS)]
+                a = field_of_kind(dk, (m, n), seed)
+                desc = dict(desc0, phase='judged', n=(m, n), out=out, seed=seed, field_dtype=str(a.dtype))
+                CUR['desc'] = desc
+                if not nontrivial(a):
+                    continue
+                # the adjoint routines (another property's consumers of the same cached bases) at exactly the keys of the pair below
+                try:
+                    Qb = (out[0] / m, out[1] / n)
+                    gb = make_input(out, True, seed + 5)
+                    fttools.mdft.dft2_backprop(gb, Qb, (m, n))
+                    fttools.mdft.idft2_backprop(gb, Qb, (m, n))
+                    fttools.mdft.dft2_backprop(make_input((m, n), True, seed + 6), 1, out)
+                    fttools.mdft.idft2_backprop(make_input((m, n), True, seed + 6), 1, out)
+                except Exception as e:  # noqa -- foreign routine
+                    ctx.event(f'foreign-traffic-raised:{type(e).__name__}')
+                for engine in ('mdft', 'czt'):
+                    with ctx.guard(f'C02/{engine}/band-complete', desc):
+                        band_complete(ctx, engine, a, (m, n), out, ('fwd-inv', 'inv-fwd')[j % 2], desc, False)
+                with ctx.guard('C02/fft-pair', desc):
+                    Q = [1, 2, 1.5, 3][j % 4]
+                    po = (math.ceil(m * Q), math.ceil(n * Q))
+                    ref = origin_pad(a.astype(np.complex128), po)
+                    cls = f'{qclass(Q)}/pad:{axes_class((m, n), po)}'
+                    field_close('fft.roundtrip', P.unfocus(P.focus(a, Q), 1), ref, f'C02/fft-roundtrip/unfocus(focus)/{cls}',
+                                'unfocus(focus(a,Q),1) is not the origin-aligned zero padding of a [after foreign traffic]', desc, False)
+                    field_close('fft.roundtrip', P.Wavefront(a, 0.5, 2.0, space='psf').unfocus(100., Q=Q).focus(100., Q=1).data, ref,
+                                f'C02/fft-roundtrip/focus(unfocus)/{cls}',
+                                'focus(unfocus(a,Q),1) is not the origin-aligned zero padding of a [after foreign traffic]', desc, False)
+                with ctx.guard('C02/free-space', desc):
+                    sk = shape_kind((m, n))
+                    wvl, z = 0.5, 3.0            # the arguments the foreign traffic used
+                    d = (dx, 1.0)[j % 2]
+                    fwd = P.angular_spectrum(a, wvl, d, z, Q=1)
+                    field_close('as.undo', P.Wavefront(fwd, wvl, d).free_space(dz=-z).data, a, f'C02/free-space/z-then-minus-z/{sk}',
+                                'propagating by z and then by -z does not return the field [after foreign traffic]', desc, False, rtol64=1e-10)
+                    field_close('as.identity', P.angular_spectrum(a, wvl, d, 0.0, Q=1), a, f'C02/free-space/z=0-not-identity/{sk}',
+                                'free-space propagation by z = 0 is not the identity [after foreign traffic]', desc, False, rtol64=1e-10)
+                    tf = P.angular_spectrum_transfer_function((m, n), wvl, d, z)
+                    tfm = P.angular_spectrum_transfer_function((m, n), wvl, d, -z)
+                    field_close('tf.group-law', tf * tfm, np.ones((m, n)), f'C02/transfer_function/tf(z1)tf(z2)!=tf(z1+z2)/{sk}',
+                                'tf(z) tf(-z) != 1 [after foreign traffic]', desc, False, rtol64=1e-10)
+                    field_close('as.tf-argument', P.angular_spectrum(a, wvl, d, float('nan'), tf=tf), fwd, f'C02/free-space/tf-argument!=direct/{sk}',
+                                'angular_spectrum(tf=transfer_function(z)) differs from angular_spectrum(z) [after foreign traffic]', desc, False,
+                                rtol64=1e-12)
+                    P.angular_spectrum(a, wvl, d, z)            # default Q = 2: energy contract
+        finally:
+            CUR['desc'] = None
+    fttools.mdft.clear()
+    fttools.czt.clear()
+
+
 # ---- class B / C: histories on the shared executors, 32 -> 64 switch --------------------------------------
 def wl_band_history(ctx, rng):
     """The band-complete pair after other traffic at the *same array sizes* on the shared executors: shifted transforms with
@@ -851,6 +1119,9 @@ def run(ctx):
         timed('free-space', wl_free_space, ctx, ctx.rng('c02-as'))
         timed('tf-reuse', wl_tf_reuse, ctx, ctx.rng('c02-tf-reuse'))
         timed('repeat-fields', wl_repeat_fields, ctx, ctx.rng('c02-repeat'))
+        timed('band-wrappers', wl_band_wrappers, ctx, ctx.rng('c02-band-wrappers'))
+        timed('forms', wl_forms, ctx, ctx.rng('c02-forms'))
+        timed('foreign', wl_foreign, ctx, ctx.rng('c02-foreign'))
         ctx.note('workload_seconds(first shard)', secs)
         ctx.note('largest_error_over_tolerance_among_held_comparisons(first shard)', {k: float(f'{v:.2e}') for k, v in sorted(STATS.items())})
     finally:
